@@ -9,6 +9,7 @@ import LlirModel.Drv.MdOps
 import LlirModel.Drv.ModOps
 import LlirModel.Drv.CoreOps
 import LlirModel.Drv.Core2Ops
+import LlirModel.Drv.Core3Ops
 import LlirModel.Drv.HistOps
 import LlirModel.Drv.FloatOps
 open Llir Llir.Drv
@@ -45,6 +46,9 @@ def dispatch (op : String) (args : List String) : String :=
   | some r => r
   | none =>
   match core2Ops op args with
+  | some r => r
+  | none =>
+  match core3Ops op args with
   | some r => r
   | none =>
   match histOps op args with
